@@ -503,29 +503,32 @@ impl<'a> Parser<'a> {
     }
 
     fn parse_op(&mut self, exec_prec: i32, mut lhs: ExprAST<'a>) -> Result<ExprAST<'a>> {
-        let mut is_not = false;
         loop {
             if !self.tokenizer.cur_token.is_op_token() {
                 return Ok(lhs);
             }
-            if self.tokenizer.cur_token.is_not_token() {
-                is_not = true;
-                self.next()?;
-                if !self.cur_tok().is_binop_token() {
-                    return Err(Error::ExpectBinOpToken);
-                }
-                continue;
-            }
             if self.tokenizer.cur_token.is_question_mark() {
+                // a conditional binds looser than every infix operator
+                if exec_prec > 0 {
+                    return Ok(lhs);
+                }
                 self.next()?;
                 let a = self.parse_expression()?;
                 self.expect(":")?;
                 let b = self.parse_expression()?;
                 return Ok(ExprAST::Ternary(Box::new(lhs), Box::new(a), Box::new(b)));
             }
-            let (l_bp, r_bp) = self.get_token_precidence();
+            // in `x not OP y` the operator that decides the grouping is OP
+            let is_not = self.tokenizer.cur_token.is_not_token();
+            let (l_bp, r_bp) = self.get_infix_precidence()?;
+            if is_not && l_bp < 0 {
+                return Err(Error::ExpectBinOpToken);
+            }
             if l_bp < exec_prec {
                 return Ok(lhs);
+            }
+            if is_not {
+                self.next()?;
             }
             let op: &str = match self.tokenizer.cur_token {
                 Token::Operator(op, _) => op,
@@ -534,16 +537,27 @@ impl<'a> Parser<'a> {
             self.next()?;
             let mut rhs = self.parse_primary()?;
 
-            let (cur_l_bp, _) = self.get_token_precidence();
-            if self.tokenizer.cur_token.is_binop_token() && r_bp < cur_l_bp {
+            let (cur_l_bp, _) = self.get_infix_precidence()?;
+            if r_bp < cur_l_bp {
                 rhs = self.parse_op(r_bp, rhs)?;
             }
             lhs = ExprAST::Binary(op, Box::new(lhs), Box::new(rhs));
             if is_not {
                 lhs = ExprAST::Unary("not", Box::new(lhs));
-                is_not = false;
             }
         }
+    }
+
+    // binding powers of the infix operator at the cursor, looking through a leading `not`;
+    // (-1, -1) when there is none
+    fn get_infix_precidence(&self) -> Result<(i32, i32)> {
+        if self.tokenizer.cur_token.is_not_token() {
+            return match self.tokenizer.peek()? {
+                Token::Operator(op, _) => Ok(InfixOpManager::new().get_precidence(op)),
+                _ => Ok((-1, -1)),
+            };
+        }
+        Ok(self.get_token_precidence())
     }
 
     fn get_token_precidence(&self) -> (i32, i32) {
